@@ -3,6 +3,7 @@
 `divide` is evaluated abstractly for every (dividend length, divisor length) up to the bound with symbolic coefficients:
 R12.1  zero divisor -> Err before any arithmetic; constant divisor -> dividend scaled by 1/c, zero remainder.
 R12.2  reconstruction: dividend = quotient·divisor + remainder as an identity in the symbolic coefficients.
+R12.4  trimming respects the tolerance (exact rational scenarios with a remainder coefficient just above / below a concrete tolerance).
 R12.3  exit: the remainder has lower degree than the divisor; an exact multiple leaves the zero remainder; a divisor of higher
        degree than the dividend gives quotient 0 and remainder = dividend; the coefficient vectors are never empty.
 Not decided: the ε-proportional backward-error bound; behaviour when the tolerance is below rounding noise.
@@ -108,6 +109,34 @@ def run(F, run, tier):
             run.check(len(rt) < lb, "R12.3", dp, "remainder-degree:" + inst, where, "remainder has %d coefficients, divisor has %d" % (len(rt), lb))
         else:
             run.check(PI.same_poly(r, a), "R12.3", dp, "small-dividend:" + inst, where, "dividend of lower degree must come back as the remainder")
+    # R12.4 the tolerance-based trimming of the running remainder drops a coefficient only when it is below the tolerance:
+    # exact rational scenarios a = q·d + r whose remainder has a small leading coefficient ε, at a concrete tolerance T
+    T = sp.Rational(1, 10 ** 10)
+    d = [sp.Integer(3), sp.Integer(-1), sp.Integer(2)]                  # 2x² − x + 3
+    q = [sp.Integer(1), sp.Rational(1, 2), sp.Integer(-4)]
+    for label, eps in (("1000T", 1000 * T), ("2T", 2 * T), ("1000T·i", 1000 * T * sp.I), ("T/2", T / 2)):
+        if budget_hits >= 2:
+            break
+        r0 = [sp.Integer(5), eps]
+        a = [sp.nsimplify(x) for x in ref_add(ref_mul(q, d), r0)]
+        inst = "eps=" + label
+        try:
+            v, it = PI.call(F, dv, [PI.poly(a, T), PI.poly(d, T)])
+        except (sym.Unsupported, vecint.IndexPanic) as e:
+            run.broken("R12.4", dp, inst, where, str(e))
+            continue
+        if not (isinstance(v, sym.Variant) and v.name == "Ok"):
+            run.fail("R12.4", dp, "result:" + inst, where, "divide returns %r" % (v,))
+            continue
+        qq, rr = PI.coeffs(v.args[0][0]), PI.coeffs(v.args[0][1])
+        recon = ref_add(ref_mul(qq, d), rr)
+        n = max(len(recon), len(a))
+        err = max(sp.Abs(sp.simplify((recon[i] if i < len(recon) else 0) - (a[i] if i < len(a) else 0))) for i in range(n))
+        allowed = 0 if sp.Abs(eps) >= T else T
+        run.check(err <= allowed, "R12.4", dp, "trimming-respects-tolerance:" + inst, where,
+                  "with zero tolerance 1e-10 and a remainder coefficient of magnitude %s, dividend − (quotient·divisor + remainder) has a coefficient of magnitude %s "
+                  "(allowed %s): the trimming of the running remainder drops coefficients that are not negligible" % (sp.N(sp.Abs(eps), 3), sp.N(err, 3), sp.N(allowed, 3)),
+                  sample="ε = %s: reconstruction error %s" % (label, sp.N(err, 3)))
     if budget_hits < 2:
         run.floor("R12.2", dp, "length pairs", n_cases, 20, where)
     run.extra["length_bound"] = [LA, LB]
